@@ -1,5 +1,5 @@
 """C08 - compaction never changes the covered set of cells."""
-from .. import core, gen, spec
+from .. import bulk, core, gen, spec
 from .. import compactgen as cg
 
 LEVEL = "proof"
@@ -16,6 +16,9 @@ def run(run):
     sets.append(("corpus-F2", [spec.encode(0, f, ()) for f in range(12)] + [0]))
     sets.append(("corpus-F3", spec.children(spec.encode(0, 0, ())) + [spec.encode(0, f, ()) for f in range(1, 12)]))
     sets.append(("empty", []))
+    for d in (29, 28, 15):
+        sets.append((f"chain-world-{d}", cg.chain_cover(rng, 0, d)))
+    sets.append(("chain-face-29", cg.chain_cover(rng, spec.encode(0, rng.randrange(12), ()), 29)))
     n = run.n(150, 5000)
     for _ in range(n):
         m = rng.random()
@@ -75,7 +78,9 @@ def run(run):
             if a is None or b is None or set(a) != set(b):
                 run.violation("expanding the compacted result gives a different cell set than expanding the input", [unreq[j][:300], unreq[j + 1][:300]],
                               f"{ui[j][:100]} / {ui[j + 1][:100]}")
-    run.rule = ("cell sets: witnesses of the repaired defects first, then random antichains (several roots incl. world/base/quintant cells, subdivision depth <= 5, deletions), "
+    # bulk: 8*10^4 .. 1.4*10^6 input cells (complete fills with the parent / world cell / duplicates / non-canonical spellings mixed in)
+    bulk.check_compact(run, bulk.compact_requests(run), "compact (bulk)")
+    run.rule = ("bulk inputs (8e4..1.4e6 cells: complete fills with the parent itself, the world cell, duplicates and non-canonical spellings mixed in, in id order and shuffled; digest vs model and vs the expected cover); cell sets: witnesses of the repaired defects first, then random antichains (several roots incl. world/base/quintant cells, subdivision depth <= 5, deletions), "
                 "fully subdivided roots whose groups complete only after earlier merges, and overlapping ancestor/descendant/duplicate mixes; each in 3 (quick) / 5 orders with multiplicities; "
                 "oracle = independent tree cover computation (+ uncompact of input and result when small); non-trivial = distinct sets on which at least one merge happened")
     run.samples = [{"request": reqs[i][:200], "impl": impl[i][:200]} for i in rng.sample(range(len(reqs)), 5)]
